@@ -148,8 +148,11 @@ static void case_pipeline(const Args &a, long idx, bool wantDesc, CaseResult &re
         cola::ConstrainedFDLayout alg(rs, es, ideal, cola::StandardEdgeLengths, &mon, (locks.empty() && resizes.empty()) ? nullptr : &pre);
         topology::ColaTopologyAddon topo(tn, routes); alg.setTopology(&topo);
         set_stage("ConstrainedFDLayout.run(topology)"); alg.run();
+        set_stage("final-check"); mon.check();
+        // the addon owns the topology nodes and routes from here on (ColaTopologyAddon::freeAssociatedObjects)
+        set_stage("freeAssociatedObjects"); cola::TopologyAddonInterface *cur = alg.getTopology();   // a clone the caller owns
+        cur->freeAssociatedObjects(); delete cur;
     }
-    set_stage("final-check"); mon.check();
     res.count("iterations_monitored", mon.iters);
     res.nontrivial = mon.bendCountChanged;
     if (mon.bendCountChanged) res.count("cases_where_bends_were_created_or_removed");
@@ -215,6 +218,7 @@ static void case_direct(const Args &a, long idx, bool wantDesc, CaseResult &res)
         }
         for (auto c : cs) delete c; for (auto v : vs) delete v;
     }
+    for (auto e : routes) delete e; for (auto nd : tn) delete nd;
     res.count("direct_cases_judged"); res.count(std::string("direct_cases_") + (grid ? "grid" : "real") + (reuse ? "_reused_instance" : "_one_goal")); res.count("solve_calls_monitored", solves); if (capped) res.count("goals_cut_off_after_100_solves");
     res.nontrivial = mon.bendCountChanged;
     if (mon.bendCountChanged) res.count("cases_where_bends_were_created_or_removed");
